@@ -438,8 +438,26 @@ def rule_renames(ctx):
                 v = e.a[2][-1]
                 if v[0] == 'call' and T.call_name(v) == '__getitem__':
                     interleaved = e
+    # inplace=False: every dict-level access works on the copy that is returned - a variable fetched from `self` carries the original's Axis objects into the copy
+    evc = run(ctx, fi, bind={'inplace': T.CONST_FALSE}, mode='join')
+    foreign = None
+    ncopy = 0
+    for p in ret_paths(evc):
+        work = p.value
+        for e in p.calls():
+            c = e.a
+            if c[1][0] == 'attr' and c[1][2] in ('__getitem__', '__setitem__', '__delitem__') and c[1][1][0] == 'call' and T.dotted(c[1][1][1]) == 'super' and len(c[1][1][2]) == 2:
+                ncopy += 1
+                if strip_mut(c[1][1][2][1]) != strip_mut(work) and foreign is None:
+                    foreign = (e, c[1][2], c[1][1][2][1])
+    if not ncopy:
+        ctx.undecide('R6', 'rename_keys(inplace=False): no dict-level access found on the returning paths')
     if not ok:
         ctx.violated('R6', fi, 'rename_keys', 'rename_keys must move the stored value (same object) under the new key')
+    elif foreign is not None:
+        ctx.violated('R6', fi, 'inplace=False: %s on %s' % (foreign[1], T.show(foreign[2])[:60]), 'with inplace=False every variable must be fetched from / stored into / removed from the copy '
+                     'that is returned; %s acts on %s: the returned dataset then holds variables whose axes are the *original* dataset\'s Axis objects, not its own'
+                     % (foreign[1], T.show(foreign[2])[:60]), node=foreign[0].node)
     elif not refuses:
         ctx.violated('R6', fi, 'rename onto an existing key', 'rename_keys stores a variable under its new key without testing that the key is free: rename_keys({\'a\': \'b\'}) overwrites '
                      'variable b through the raw dict store, and b\'s own dimensions stay in ds.dims although no variable uses them', node=fi.node)
@@ -468,7 +486,63 @@ def rule_init(ctx):
         ctx.violated('R7', fi, 'Dataset.__init__', 'the constructor must insert the arrays returned by align_axes(values) (outer join), not the raw inputs')
 
 
+def strip_mut(t):
+    """the object a term denotes, whatever in-place updates it has received"""
+    while t[0] in ('mut', 'setitem'):
+        t = t[1]
+    return t
+
+
+def rule_rejection_total(ctx):
+    """R8: "Assigning an array whose labels disagree with an existing dataset axis raises ValueError" - for every pair of label sets, the empty one included.
+    The message of that ValueError is formatted from the two Axis objects (str(axis)); whatever that evaluates must be total: the first / last label of an axis
+    is only read under a size guard (an IndexError raised while building the message would replace the promised ValueError)."""
+    from .c06 import _nonempty_fact
+    ctx.rule('R8', 'the rejection message (str of an Axis) reads end labels only under a size guard', 2)
+    fi = ctx.fn(DS + '__setitem__')
+    ev = run(ctx, fi, mode='join')
+    formatted = 0
+    for p in raise_paths(ev):
+        if exc_name(p.value) != 'ValueError':
+            continue
+        for t in T.subterms(p.value):
+            if t[0] == 'call' and T.call_name(t) == 'format':
+                formatted += 1
+    ctx.require('R8', formatted >= 1, 'Dataset.__setitem__: the ValueError("axes values do not match ... {}".format(axis, axis)) rejection was not found')
+    P = ctx.P
+    todo = [P.lookup(P.cls('dimarray.core.axes.Axis'), '__str__').value]
+    seen = set()
+    n = 0
+    while todo:
+        f = todo.pop()
+        if f.qualname in seen:
+            continue
+        seen.add(f.qualname)
+        ctx.functions.add(f.qualname)
+        evf = run(ctx, f, mode='fork')
+        for q in evf.paths:
+            nonempty = [x for x in (_nonempty_fact(a, pol) for a, pol in q.guards) if x is not None]
+            srcs = [q.value] if q.value is not None else []
+            srcs += [a for a, pol in q.guards]
+            for src in srcs:
+                for t in T.subterms(src):
+                    if t[0] == 'sub' and t[2] in (const(0), const(-1)) and t[1] in (('attr', SELF, 'values'), ('attr', SELF, '_values')):
+                        n += 1
+                        if SELF not in nonempty and t[1] not in nonempty:
+                            ctx.violated('R8', f, 'label read ' + T.show(t), 'str(axis) reads an end label (%s) without having established that the axis is non-empty: rejecting an '
+                                         'assignment where one of the two axes is empty raises IndexError from the message formatting instead of the promised ValueError'
+                                         % T.show(t), node=q.node)
+                    if t[0] == 'call' and t[1][0] == 'attr' and t[1][1] == SELF and not t[1][2].startswith('__'):
+                        m = P.lookup(P.cls('dimarray.core.axes.Axis'), t[1][2])
+                        if m is not None and m.kind == 'func':
+                            todo.append(m.value)
+    if not any(f.rule == 'C13-R8' for f in ctx.findings):
+        ctx.holds('R8', 'Dataset.__setitem__ rejection formats the axes')
+        ctx.holds('R8', 'str(Axis) -> %s: %d end-label reads, each under a size guard' % (', '.join(sorted(x.rsplit('.', 1)[-1] for x in seen)), n))
+
+
 def check(ctx):
+    rule_rejection_total(ctx)
     rule_single_writer(ctx)
     rule_setitem(ctx)
     rule_propagation(ctx)
